@@ -71,6 +71,14 @@ CHECKS = {
          "Generated-input exploration: every generated direct problem is compared with a reference that integrates the geodesic equation itself (no series, no auxiliary sphere), to 2x the documented accuracy for the flattening. Exploration is the right level: the property quantifies over a continuum of inputs and an executable oracle exists.",
          "Trusts: the reference ODE integrator (self-checked per case by step halving, constraint projection), x87 long double, the tolerance formulas of DESIGN section 2 (2x documented accuracy, scaled by length in quarter circuits). Errors below the documented accuracy are not violations.",
          "DESIGN.md section 3/C01"),
+ "C19": ("rapidcheck", "property-based testing against independent 50-digit (spherical harmonics: un-normalised Ferrers recurrences + Cunningham gradient) and 100-digit (normal gravity: Heiskanen-Moritz closed forms) references; synthetic coefficient sets and synthetic WMM/EGM-format model files generated per case; metamorphic truncation (higher terms zeroed), Circle == direct evaluation, gradient vs difference quotient, Laplace / Somigliana identities",
+         "SphericalHarmonic/1/2 value and gradient (both normalisations, axis and near-axis points, N up to 60 in quick and 360 in thorough), CircularEngine incl. polar circles, degree/order limits, MagneticModel/MagneticCircle and GravityModel/GravityCircle built from generated files (V, W, U, T, delta, Gravity, Disturbance, SphericalAnomaly, GeoidHeight, field components and rates), NormalGravity (U0, gradients, J_n, J2 <-> f) are compared with the references under a conditioning law tol = k eps G(n) Sum|terms|.",
+         "Reference self-tests (orthonormality, Euler identity, Laplace residual) in ref/*_selftest.cpp; per-case Euler identity guards the reference. Terms below the library's 2^-614 scaling floor are covered by an absolute floor (not judged). Real model data sets are not available offline: synthetic files exercise the same code paths.",
+         "DESIGN.md section 3/C19"),
+ "C20": ("rapidcheck (stateful / model-based)", "property-based testing on generated PGM rasters against an independent long-double bilinear / 12-point least-squares cubic reference; structural relations (node values bit-exact, affine along edges, continuity across cells, longitude periodicity, cubic reproduction, pole independence of longitude, NaN propagation); model-based histories of cache operations and queries compared bit-for-bit with a fresh uncached object, a CacheAll object and a threadsafe object; single-field header/body corruptions must be rejected",
+         "Rasters of many widths/heights/offsets/scales incl. every header variant are written per case; histories of up to 60 operations (CacheArea incl. date-line wraps, CacheAll, CacheClear, height queries, ConvertHeight) check every query against the reference and against three differently cached objects, plus the cache inspectors after every step.",
+         "The cubic stencil weights are re-derived per query from the normal equations (no library table copied). Real geoid data sets are not available offline; synthetic rasters in the documented format exercise the same reader.",
+         "DESIGN.md section 3/C20"),
 }
 NOT_YET = {}
 props = [json.loads(l) for l in open(os.path.join(HERE, "properties.jsonl"))]
